@@ -126,6 +126,7 @@ theorem owed_persists (s : Server) (l : Label) (sid : Nat) (k : Kind) (h : (sid,
   | bind sid' => simp only [step, bind]; split <;> exact h
   | hello sid' m => simp only [step, hello]; split <;> exact h
   | listen a b c d => simp only [step, listen]; split <;> exact h
+  | listenAck a b => simp only [step, listenAck]; split; exact h; split; exact h; split <;> exact h
   | listenEnd a b => simp only [step, listenEnd]; split <;> exact h
   | subscribe a b c => simp only [step, subscribe]; split <;> exact h
   | unsubscribe a b => simp only [step, unsubscribe]; split <;> exact h
@@ -178,7 +179,7 @@ theorem none_when_disabled (cap : Kind → Cap) (k : Kind) (hoff : cap k = .off)
         simp at ho
         obtain ⟨rfl, _⟩ := ho
         exact hp (idle s' hr).2.2
-    case listen a b c d => simp only [listen] at ho; split at ho <;> simp at ho
+    case listenAck a b => simp only [listenAck] at ho; split at ho; simp at ho; split at ho; simp at ho; split at ho <;> simp at ho
   · have := idle _ (reach_final cap ls)
     simp [active, this]
 
@@ -194,7 +195,7 @@ theorem fanout_entitled_only (cap : Kind → Cap) (ls : List Label) (k : Kind) (
   obtain ⟨s, l, hr, ho⟩ := outputs_from_reach Reach.init ls _ h
   have hS := (reach_inv hr).2
   cases l <;> simp [step] at ho
-  case listen a b c d => simp only [listen] at ho; split at ho <;> simp at ho
+  case listenAck a b => simp only [listenAck] at ho; split at ho; simp at ho; split at ho; simp at ho; split at ho <;> simp at ho
   case cbrun k' =>
     simp only [cbrun] at ho
     split at ho
@@ -251,7 +252,7 @@ theorem updated_reaches_exactly_subscribers (cap : Kind → Cap) (ls : List Labe
   have hS := (reach_inv hr).2
   cases l <;> simp [step] at ho
   case cbrun k' => simp only [cbrun] at ho; split at ho <;> simp at ho
-  case listen a b c d => simp only [listen] at ho; split at ho <;> simp at ho
+  case listenAck a b => simp only [listenAck] at ho; split at ho; simp at ho; split at ho; simp at ho; split at ho <;> simp at ho
   case updated u' =>
     obtain ⟨rfl, rfl⟩ := ho
     refine ⟨s, hr, ?_, ?_, ?_⟩
@@ -341,18 +342,210 @@ theorem closed_sessions_forgotten (cap : Kind → Cap) (ls : List Label) (sid : 
 theorem close_disconnects (s : Server) (sid : Nat) : sid ∉ (close s sid).sessions.map Prod.fst := by
   simp [close]
 
+/-! ### the acknowledgement of a listen comes after its registration
+
+`listen` (registration section) and `listenAck` (the acknowledgement write) are separate labels;
+every other label can be scheduled between them and after them. -/
+
+/-- What the server's tables say about a listen `(sid, id)` that was granted `ks` / `us`: it is in
+every list-changed table of `ks` and subscribed to every URI of `us`, hence in the snapshot of any
+`notifySessions(k)` and in the lookup of any `ResourceUpdated(u)` taken in this state — stamped with
+its own request id. -/
+def registered (s : Server) (sid id : Nat) (ks : List Kind) (us : List Nat) : Prop :=
+  (sid, Gen.modern) ∈ s.sessions ∧
+  (∀ k ∈ ks, (sid, id) ∈ (s.ks k).subs ∧ (⟨sid, some id⟩ : Send) ∈ sendList s k) ∧
+  (∀ u ∈ us, (u, sid, id) ∈ s.rsubs ∧ (⟨sid, some id⟩ : Send) ∈ updList s u)
+
+theorem registered_of_listen {s : Server} (hS : InvS s) {l : Listen} (hl : l ∈ s.listens) :
+    registered s l.sid l.id l.kinds l.uris := by
+  have hm := hS.listen_modern l hl
+  refine ⟨hm, ?_, ?_⟩
+  · intro k hk
+    have := hS.listen_subs l hl k hk
+    exact ⟨this, List.mem_append.2 (Or.inr (mem_subRecips.2 ⟨l.id, this, rfl⟩))⟩
+  · intro u hu
+    have := hS.listen_rsubs l hl u hu
+    refine ⟨this, mem_updList.2 ⟨l.id, this, ?_⟩⟩
+    have hg := genOf_of_mem hS.sess_nodup hm
+    simp [hg]
+
+/-- **ack_after_registration.**  Whenever a `notifications/subscriptions/acknowledged` is written —
+in any schedule — the state it is written in already has the session in every table the
+acknowledgement names; the write itself changes no table.  So from the instant the client can hold
+the acknowledgement there is no window in which a `notifySessions` snapshot or a `ResourceUpdated`
+lookup misses the session. -/
+theorem ack_after_registration (cap : Kind → Cap) (ls : List Label) (sid id : Nat) (ks : List Kind)
+    (us : List Nat) (h : Out.ack sid id ks us ∈ outputs cap ls) :
+    ∃ s, Reach cap s ∧ (step s (.listenAck sid id)).2 = [.ack sid id ks us] ∧
+      registered s sid id ks us ∧
+      (∀ t, ((step s (.listenAck sid id)).1.ks t).subs = (s.ks t).subs) ∧
+      (step s (.listenAck sid id)).1.rsubs = s.rsubs ∧
+      (step s (.listenAck sid id)).1.sessions = s.sessions := by
+  obtain ⟨s, l, hr, ho⟩ := outputs_from_reach Reach.init ls _ h
+  have hS := (reach_inv hr).2
+  cases l <;> simp [step] at ho
+  case cbrun k' => simp only [cbrun] at ho; split at ho <;> simp at ho
+  case listenAck a b =>
+    refine ⟨s, hr, ?_⟩
+    simp only [step]
+    cases hfind : s.listens.find? (fun l => l.sid == a && l.id == b) with
+    | none => simp [listenAck, hfind] at ho
+    | some l =>
+      obtain ⟨hl, hsid, hid⟩ := find?_spec hfind
+      have hreg := registered_of_listen hS hl
+      rw [hsid, hid] at hreg
+      by_cases hna : (a, b) ∈ s.acked
+      · simp [listenAck, hfind, hna] at ho
+      · by_cases hempty : l.kinds = [] ∧ l.uris = []
+        · simp [listenAck, hfind, hna, hempty] at ho
+          obtain ⟨rfl, rfl, rfl, rfl⟩ := ho
+          rw [hempty.1, hempty.2] at hreg
+          simp only [listenAck, hfind, hna, hempty, and_self, if_true, if_false]
+          simpa using hreg
+        · simp only [listenAck, hfind, hna, hempty, if_false] at ho
+          simp at ho
+          obtain ⟨rfl, rfl, rfl, rfl⟩ := ho
+          simp only [listenAck, hfind, hna, hempty, if_false]
+          simpa using hreg
+
+/-- Meaning of the ghost `acked`, part 1: writing a non-empty acknowledgement records the listen. -/
+theorem acked_of_ack (s : Server) (sid id : Nat) (ks : List Kind) (us : List Nat)
+    (h : (step s (.listenAck sid id)).2 = [.ack sid id ks us]) (hne : ks ≠ [] ∨ us ≠ []) :
+    (sid, id) ∈ (step s (.listenAck sid id)).1.acked := by
+  simp only [step, listenAck] at h ⊢
+  split at h
+  · simp at h
+  · split at h
+    · simp at h
+    · split at h
+      · simp at h
+        obtain ⟨rfl, rfl⟩ := h
+        simp at hne
+      · rename_i hna hnempty
+        simp [hna, hnempty]
+
+/-- Meaning of the ghost `acked`, part 2: it stays until that listen ends or the session closes. -/
+theorem acked_persists (s : Server) (l : Label) (sid id : Nat) (h : (sid, id) ∈ s.acked)
+    (h1 : l ≠ .listenEnd sid id) (h2 : l ≠ .close sid) : (sid, id) ∈ (step s l).1.acked := by
+  cases l with
+  | change f e =>
+    simp only [step, change]; split; exact h; split; exact h; simp only [notifyChange]; split
+    · simp only [arm]; split <;> exact h
+    · exact h
+  | tick d => exact h
+  | fireTracked k' => simp only [step, fireTracked]; split; split <;> exact h; exact h
+  | fireOrphan k' i => simp only [step, fireOrphan]; split; split <;> exact h; exact h
+  | cbrun k' => simp only [step, cbrun]; split <;> exact h
+  | bind sid' => simp only [step, bind]; split <;> exact h
+  | hello sid' m => simp only [step, hello]; split <;> exact h
+  | listen a b c d => simp only [step, listen]; split <;> exact h
+  | listenAck a b =>
+    simp only [step, listenAck]; split; exact h; split; exact h; split
+    · exact h
+    · simp; exact Or.inl h
+  | listenEnd a b =>
+    simp only [step, listenEnd]; split
+    · exact h
+    · simp; refine ⟨h, ?_⟩
+      by_cases e1 : sid = a
+      · right; intro e2; apply h1; rw [e1, e2]
+      · exact Or.inl e1
+  | subscribe a b c => simp only [step, subscribe]; split <;> exact h
+  | unsubscribe a b => simp only [step, unsubscribe]; split <;> exact h
+  | close sid' => simp [step, close]; exact ⟨h, fun e => h2 (by rw [e])⟩
+  | updated u => exact h
+
+/-- **acked_stays_registered.**  In every reachable state an acknowledged listen is a live handler
+whose grants are all in the tables: no schedule of changes, callbacks, other listens ending,
+subscribes, unsubscribes or other sessions closing takes an acknowledged subscription out of a
+snapshot (this is where the by-id clean-up of F19 is needed). -/
+theorem acked_stays_registered (cap : Kind → Cap) (ls : List Label) (sid id : Nat)
+    (h : (sid, id) ∈ (final cap ls).acked) :
+    ∃ l ∈ (final cap ls).listens, l.sid = sid ∧ l.id = id ∧
+      registered (final cap ls) sid id l.kinds l.uris := by
+  have hr := reach_final cap ls
+  obtain ⟨l, hl, h1, h2⟩ := reach_invA hr (sid, id) h
+  have := registered_of_listen (reach_inv hr).2 hl
+  rw [h1, h2] at this
+  exact ⟨l, hl, h1, h2, this⟩
+
+/-- An acknowledged grant of `k` makes the session entitled. -/
+theorem entitled_of_acked (cap : Kind → Cap) (ls : List Label) (sid id : Nat) (k : Kind)
+    (h : (sid, id) ∈ (final cap ls).acked)
+    (hk : ∀ l ∈ (final cap ls).listens, l.sid = sid → l.id = id → k ∈ l.kinds) :
+    entitled (final cap ls) sid k := by
+  obtain ⟨l, hl, h1, h2, _⟩ := acked_stays_registered cap ls sid id h
+  exact Or.inr ⟨l, hl, h1, hk l hl h1 h2⟩
+
+/-- **at_least_one_after_ack.**  A 2026-07-28 session that holds the acknowledgement of a listen
+granted `k` and is in debt for `k` (a gated change since it connected — before or after the
+acknowledgement — that no snapshot has covered) is in the send list of the next `notifySessions(k)`
+run, stamped with that listen's id; and such a run is still to come (`no_lost_notification`). -/
+theorem at_least_one_after_ack (cap : Kind → Cap) (ls : List Label) (sid id : Nat) (k : Kind)
+    (ha : (sid, id) ∈ (final cap ls).acked)
+    (hk : ∀ l ∈ (final cap ls).listens, l.sid = sid → l.id = id → k ∈ l.kinds)
+    (ho : (sid, k) ∈ (final cap ls).owed) :
+    active ((final cap ls).ks k) ∧
+    (0 < ((final cap ls).ks k).pending →
+      ∃ to, (step (final cap ls) (.cbrun k)).2 = [.changed k to] ∧ (⟨sid, some id⟩ : Send) ∈ to) := by
+  refine ⟨no_lost_notification cap ls sid k ho, ?_⟩
+  intro hp
+  obtain ⟨l, hl, h1, h2, hreg⟩ := acked_stays_registered cap ls sid id ha
+  refine ⟨sendList (final cap ls) k, ?_, (hreg.2.1 k (hk l hl h1 h2)).2⟩
+  simp only [step, cbrun]; split
+  · omega
+  · rfl
+
+/-- **acked_updated.**  A `ResourceUpdated(u)` call made while the session holds the acknowledgement
+of a listen granted `u` reaches the session, stamped with that listen's id. -/
+theorem acked_updated (cap : Kind → Cap) (ls : List Label) (sid id u : Nat)
+    (ha : (sid, id) ∈ (final cap ls).acked)
+    (hu : ∀ l ∈ (final cap ls).listens, l.sid = sid → l.id = id → u ∈ l.uris) :
+    ∃ to, (step (final cap ls) (.updated u)).2 = [.updated u to] ∧ (⟨sid, some id⟩ : Send) ∈ to := by
+  obtain ⟨l, hl, h1, h2, hreg⟩ := acked_stays_registered cap ls sid id ha
+  exact ⟨updList (final cap ls) u, rfl, (hreg.2.2 u (hu l hl h1 h2)).2⟩
+
 /-- Non-vacuity of the server-side statements: a burst of two tool changes with one legacy and one
 subscribed 2026-07-28 session, the second change landing between the timer firing and its callback
 taking the lock; the re-armed timer's callback still reaches both sessions. -/
 example :
     outputs (fun _ => .unset)
       [.change .tools .add, .bind 1, .hello 1 false, .bind 2, .hello 2 true, .listen 2 7 [.tools] [],
-       .change .tools .add, .tick 10, .fireTracked .tools, .change .tools .add, .cbrun .tools,
+       .listenAck 2 7, .change .tools .add, .tick 10, .fireTracked .tools, .change .tools .add, .cbrun .tools,
        .tick 10, .fireOrphan .tools 0, .cbrun .tools] =
       [.ack 2 7 [.tools] [], .changed .tools [⟨1, none⟩, ⟨2, some 7⟩], .changed .tools [⟨1, none⟩, ⟨2, some 7⟩]] := by
   decide
 
 example : (final (fun _ => .unset) [.bind 1, .change .tools .add]).owed = [(1, .tools)] := by decide
+
+/-- Non-vacuity of the acknowledgement theorems: the whole burst (change, timer, callback) falls
+between the acknowledgement write and the next step of the handler; the session is reached.  And a
+burst that falls between the registration section and the acknowledgement write reaches it too (the
+notification then precedes the acknowledgement on the wire). -/
+example :
+    outputs (fun _ => .unset)
+      [.change .tools .add, .bind 2, .hello 2 true, .listen 2 7 [.tools] [], .listenAck 2 7,
+       .change .tools .add, .tick 10, .fireTracked .tools, .cbrun .tools] =
+      [.ack 2 7 [.tools] [], .changed .tools [⟨2, some 7⟩]] := by
+  decide
+
+example :
+    outputs (fun _ => .unset)
+      [.change .tools .add, .bind 2, .hello 2 true, .listen 2 7 [.tools] [],
+       .change .tools .add, .tick 10, .fireTracked .tools, .cbrun .tools, .listenAck 2 7] =
+      [.changed .tools [⟨2, some 7⟩], .ack 2 7 [.tools] []] := by
+  decide
+
+example : (final (fun _ => .unset)
+    [.change .tools .add, .bind 2, .hello 2 true, .listen 2 7 [.tools] [], .listenAck 2 7]).acked = [(2, 7)] := by
+  decide
+
+/-- A per-URI listen (what `ClientSession.Subscribe` opens): acknowledged, then updated. -/
+example :
+    outputs (fun _ => .on)
+      [.bind 2, .hello 2 true, .listen 2 3 [] [5], .listenAck 2 3, .updated 5, .listenEnd 2 3, .updated 5] =
+      [.ack 2 3 [] [5], .updated 5 [⟨2, some 3⟩], .updated 5 []] := by
+  decide
 
 end Notify
 
